@@ -6,7 +6,7 @@ use libfuzzer_sys::fuzz_target;
 use std::sync::Once;
 
 use vcheck::driver::Known;
-use vcheck::registry::{fuzzable, subs_for};
+use vcheck::registry::{all_subs_for, fuzzable};
 
 static INIT: Once = Once::new();
 
@@ -23,7 +23,7 @@ fuzz_target!(|data: &[u8]| {
     });
     let prop = std::env::var("VERIF_PROP").unwrap_or_else(|_| "C10".into());
     let s = stream(data);
-    for sub in subs_for(&prop) {
+    for sub in all_subs_for(&prop) {
         if !fuzzable(sub.p.dname()) {
             continue;
         }
